@@ -131,6 +131,19 @@ CHECKS = {
         "start-up, exact surface distance). numpy's global seed is fixed before each evaluation because containsObject samples internally.",
         "3/C04",
     ),
+    "C15": (
+        "exploration",
+        "SetOrderSeam+ClockSeam+fresh processes",
+        "exhaustive enumeration of the iteration orders of identity-hashed sets, of requirement-check orderings (deviation-bounded scripted "
+        "clock) and of checker histories, with fixed RNG seeds and a differential oracle",
+        "For six programs (requirement-only random values, soft requirements, numpy-sampled mesh regions with a containment check that "
+        "consumes randomness internally, run-time random values in behaviors/monitors) and fixed seeds: every set iteration order, every "
+        "check ordering with <=2 (3) non-default durations, 0..2 (3) previously generated scenes, and fresh processes for a list of "
+        "PYTHONHASHSEED values all yield bit-identical scenes, iteration counts, simulation results and final RNG states.",
+        "Trusted: the seams (a module-global `set` shadowing the builtin in scenic.core.requirements / dynamics.scenarios; scripted "
+        "perf_counter in sample_checking). Address-space layout itself cannot be enumerated; its only effect on the code is enumerated.",
+        "3/C15",
+    ),
 }
 
 NOT_YET = {}
